@@ -12,7 +12,7 @@ Total transcriptions, with an explicit `panic` outcome wherever the Go code inde
   (header indexing `data[0..3]`, the two size limits, the per-role message-type dispatch);
 * the cookie-insertion index of `processHelloRetryRequest`'s uTLS section
   (`p.Intn(len(Extensions)-2)` and the two slice expressions that use it);
-* `decompressCert`'s allocation request (`make([]byte, uncompressedLength+4)`, `rawMsg[0..3]`, `rawMsg[4:]`);
+* `decompressCert`'s length guard and allocation request (`make([]byte, uncompressedLength+4)`, `rawMsg[0..3]`, `rawMsg[4:]`);
 * the record-level retry counter (`retryCount` / `maxUselessRecords`) of `readRecordOrCCS` /
   `retryReadRecord` and the post-handshake loop of `UConn.Read` / `handlePostHandshakeMessage`;
 * `parseECHExt` and the `hello[4:]` slice of `decryptECHPayload` (server side).
@@ -297,14 +297,15 @@ structure ReadHs where
   deriving DecidableEq, Repr
 
 /-- `readHandshake` on a handshake buffer `hand` (what earlier records delivered):
-`readHandshakeBytes(4)`, `data[0]`, `data[1..3]`, the size limit, `readHandshakeBytes(4+n)`,
+`readHandshakeBytes(4)`, `data[0]`, `data[1..3]`, the size limit (the certificate-message limit for types
+11 and — since the repair of D26 — 25, once a version has been negotiated), `readHandshakeBytes(4+n)`,
 `c.hand.Next(4+n)`, then `unmarshalHandshakeMessage`. -/
 def readHandshake (inh : Kind → Bytes → Bool) (isClient vers13 haveVers : Bool) (hand : Bytes) : ReadHs :=
   if hand.length < 4 then ⟨.err .needMore, 0, hand.length⟩ else
   match idx hand 0, idx hand 1, idx hand 2, idx hand 3 with
   | .ok t, .ok a, .ok b, .ok c =>
     let n := a * 65536 + b * 256 + c
-    let limit := if haveVers && t == typeCertificate then maxHandshakeCert else maxHandshake
+    let limit := if haveVers && (t == typeCertificate || t == typeCompressedCert) then maxHandshakeCert else maxHandshake
     if n > limit then ⟨.err .tooLong, 1, hand.length⟩
     else if hand.length < 4 + n then ⟨.err .needMore, 0, hand.length⟩
     else
@@ -339,32 +340,36 @@ def insertAt {α : Type} (xs : List α) (i : Nat) (c : α) : List α := xs.take 
 
 /-! ## `decompressCert`: the buffer requested from the peer-declared length -/
 
-/-- `rawMsg := make([]byte, m.uncompressedLength+4)`, then `rawMsg[0]..rawMsg[3]` and `rawMsg[4:]`.
-Returns the allocation size, or `panic` if one of the index expressions is out of range. -/
-def decompressAlloc (m : CompCert) : Out Nat :=
+/-- the guard added by the repair of D18, then `rawMsg := make([]byte, m.uncompressedLength+4)`,
+`rawMsg[0]..rawMsg[3]` and `rawMsg[4:]`. `ok none`: refused before anything is allocated;
+`ok (some n)`: a buffer of `n` bytes was requested; `panic` if one of the index expressions were out of range. -/
+def decompressAlloc (m : CompCert) : Out (Option Nat) :=
+  if m.ulen > maxHandshakeCert then .ok none else
   let size := m.ulen + 4
   let raw : Bytes := List.replicate size 0
   match idx raw 0, idx raw 1, idx raw 2, idx raw 3, sliceFrom raw 4 with
-  | .ok _, .ok _, .ok _, .ok _, .ok _ => .ok size
+  | .ok _, .ok _, .ok _, .ok _, .ok _ => .ok (some size)
   | _, _, _, _, _ => .panic
 
 inductive DecompRes where
-  | unadvertised | unsupported | decoderErr | lenMismatch | badCert | ok
+  | unadvertised | tooLarge | unsupported | decoderErr | lenMismatch | lenExceeds | badCert | ok
   deriving DecidableEq, Repr
 
-/-- `decompressCert` around the decoder. `firstRead n` is what the decoder's single `Read` into an `n`-byte
-buffer returns (`none`: an error other than EOF, or the reader could not be opened); `certOk` is the
-inherited `certificateMsgTLS13.unmarshal`. Second component: the buffer size requested, if the code got
-that far. -/
-def decompress (adv : List Nat) (m : CompCert) (firstRead : Nat → Option Bytes) (certOk : Bytes → Bool) :
+/-- `decompressCert` around the decoder (repaired code: D18 guard, D14 `io.ReadFull` + one-byte probe).
+`decoded` is the whole stream the decoder yields (`none`: it fails, or the reader cannot be opened);
+`certOk` is the inherited `certificateMsgTLS13.unmarshal`. Second component: the buffer size requested, if the
+code got that far. -/
+def decompress (adv : List Nat) (m : CompCert) (decoded : Option Bytes) (certOk : Bytes → Bool) :
     DecompRes × Option Nat :=
   if !adv.contains m.alg then (.unadvertised, none)
+  else if m.ulen > maxHandshakeCert then (.tooLarge, none)
   else if !(m.alg = 1 ∨ m.alg = 2 ∨ m.alg = 3) then (.unsupported, none)
   else
-    match firstRead m.ulen with
+    match decoded with
     | none => (.decoderErr, some (m.ulen + 4))
     | some out =>
       if out.length < m.ulen then (.lenMismatch, some (m.ulen + 4))
+      else if out.length > m.ulen then (.lenExceeds, some (m.ulen + 4))
       else if certOk out then (.ok, some (m.ulen + 4))
       else (.badCert, some (m.ulen + 4))
 
